@@ -76,7 +76,7 @@ func VH_C13_tellHubDeliverCancel() bool {
 	return true
 }
 
-// verif: replay=schedule unwind=8 cover=served bounds="AskHub: 2 servers (own contexts), 1 asker, 1 canceller of server 0's context: exactly one handler runs and the asker gets its answer"
+// verif: replay=schedule unwind=8 preempt=3/5 cover=served bounds="AskHub: 2 servers (own contexts), 1 asker, 1 canceller of server 0's context: at most 3 (quick) / 5 (thorough) preemptions; exactly one handler runs and the asker gets its answer"
 func VH_C13_askHubExactlyOnce() bool {
 	h := NewAskHub[vAddr]()
 	ctx0, ctx1, ctxD := vNewCtx(), vNewCtx(), vNewCtx()
